@@ -139,7 +139,15 @@ def run(ctx):
                     continue
         want = spec(evs, flt)
         nj += 1
-        got = [TRAILING_PID.sub('', ' '.join(x.split(' ')).replace('  ', ' ')).rstrip(' ') for x in got]      # the pid token leaves a doubled space
+        raw_got = got
+        got = []
+        seen_norm = {}
+        for x in raw_got:
+            y = TRAILING_PID.sub('', ' '.join(x.split(' ')).replace('  ', ' ')).rstrip(' ')      # the pid token leaves a doubled space
+            if y in seen_norm and seen_norm[y] != x:
+                continue        # two records that differ only in a trailing pid/peer_pid (not stripped by the code, see assumptions): one event
+            seen_norm.setdefault(y, x)
+            got.append(y)
         if got != want:
             nfail += 1
             if nfail <= 3:
